@@ -20,7 +20,7 @@ RULE = ("checksum-valid frames of every message id x every payload length 0..def
         "{00,ff,random,small} x msgmode{0,1,2,3} x validate x parsebitfield, the fields str() decorates (every class byte x a spread of id bytes in ACK-ACK/ACK-NAK/CFG-MSG, every gnssId, boundary iTOWs), plus arbitrary byte strings: PARSE "
         "correspondence + search on the implementation: parse returns a message or raises UBXParseError/UBXMessageError/"
         "UBXTypeError; every returned message can be inspected (str, repr, identity, length, payload, msgmode, serialize) "
-        "without raising; per-case time limit; READ of garbage and frame streams x quitonerror{0,1,2}: iteration ends, "
+        "without raising; per-case time limit; READ of garbage and frame streams x quitonerror{0,1,2}, from files and through sockets (bufsize 1..4096, close/timeout/OSError endings): iteration ends, "
         "raises nothing under IGNORE/LOG and only protocol errors under RAISE. non-trivial = distinct (frame, outcome).")
 
 UBXERR = (ube.UBXParseError, ube.UBXMessageError, ube.UBXTypeError)
@@ -161,8 +161,31 @@ def reader_half(ctx, rng):
                "validate": c["validate"], "msgmode": c["msgmode"]}
         if o["raised"] is None:
             continue
-        if c["qe"] != 2:
+        if o["raised"] in ("HANG", "HANG-SKIPPED"):
+            ctx.fail("reader-does-not-terminate", inp, "iteration ends", o["raised"])
+        elif c["qe"] != 2:
             ctx.fail("reader-raises-under-ignore-or-log", inp, "no exception", o["raised"])
         elif not isinstance(o["exc"], rp.PROT_ERRS):
             ctx.fail("reader-raises-foreign:" + o["raised"], inp, "UBX*/NMEA*/RTCM* protocol error", repr(o["exc"])[:120])
     ctx.count("reader_wall_ms", int((time.time() - t0) * 1000))
+    # the same through a socket: every transport must end (receive buffers smaller and larger than the frames;
+    # peer closes / receive times out / OSError after the last byte)
+    from props import c10
+    scases = []
+    for s in streams[:: (3 if ctx.quick() else 1)]:
+        if not s:
+            continue
+        cuts = sorted(rng.sample(range(1, len(s)), min(len(s) - 1, rng.randrange(0, 5)))) if len(s) > 1 else []
+        c = c10.mk_case(s, rl.split_at(s, cuts), rng.choice([1, 7, 16, 64, 4096]), rng.choice(["close", "timeout", "oserror"]),
+                        7, rng.randrange(3), rng.random() < 0.85)
+        scases.append(c)
+    sobs = rp.correspond_runs(ctx, scases, "SOCK")
+    for c, o in zip(scases, sobs):
+        inp = {"op": "SOCK", "chunks": rl.events_str(c["events"])[:300], "bufsize": c["bufsize"], "end": c["end"], "qe": c["qe"],
+               "parsing": c["parsing"]}
+        if o["raised"] in ("HANG", "HANG-SKIPPED"):
+            ctx.fail("reader-does-not-terminate", inp, "iteration ends", o["raised"])
+        elif o["raised"] is not None and c["qe"] != 2:
+            ctx.fail("reader-raises-under-ignore-or-log", inp, "no exception", o["raised"])
+        elif o["raised"] is not None and not isinstance(o["exc"], rp.PROT_ERRS):
+            ctx.fail("reader-raises-foreign:" + o["raised"], inp, "UBX*/NMEA*/RTCM* protocol error", repr(o["exc"])[:120])
